@@ -199,6 +199,15 @@ def catalogue(spec: ModelSpec, rng: random.Random):
             m = clone(spec)
             del m.assigns[k]
             yield ("missing_derivative", "derivative", "removed", m, derivs[a[0]])
+            # ... while the derivative of another state of the component is written twice (a legal repetition: same right-hand
+            # side, another trailing comment), so that the *number* of derivatives still equals the number of states
+            sib = next((b for j, b in enumerate(spec.assigns) if j != k and b[0] in derivs and b[2] == a[2]), None)
+            if sib is not None:
+                m = clone(spec)
+                del m.assigns[k]
+                m.assigns = [(b[0], b[1], b[2], "first") if b[0] == sib[0] else b for b in m.assigns]
+                m.assigns = m.assigns + [(sib[0], sib[1], sib[2], "again")]
+                yield ("missing_derivative:sibling_derivative_repeated", "derivative", "removed", m, derivs[a[0]])
             oc = other_component(spec, a[2])
             m = clone(spec)
             del m.assigns[k]
